@@ -155,7 +155,7 @@ fn mutate_shelley_plus(rng: &mut Rng, c: &mut Case, f: &Fixture) -> Option<Strin
     let n_out = output_count(&tx);
     let net = c.env.network_id;
     let legacy_default = !post_alonzo(c.era) || rng.bool();
-    match rng.below(36) {
+    match rng.below(38) {
         0 if n_out > 0 => {
             let (i, v) = (rng.usize_below(n_out), edge(rng));
             c.tx = edit_output(&tx, i, |o| {
@@ -525,6 +525,25 @@ fn mutate_shelley_plus(rng: &mut Rng, c: &mut Case, f: &Fixture) -> Option<Strin
             items.push(Node::bytes(&[0x46, 0x01, 0x00, 0x00, 0x22, 0x20, 0x01]));
             c.tx = wits_set(&tx, k, Some(list_like(cur.as_ref(), items)));
             Some(format!("wits[{k}] +script"))
+        }
+        35 | 36 => {
+            // auxiliary data with a hash field of the right or a wrong length (0, 31, 33, 64 bytes),
+            // or a hash field without auxiliary data
+            let md = Node::map(vec![(Node::u(rng.below(1000)), Node::text("pv"))]);
+            let with_aux = rng.chance(4, 5);
+            let t = if with_aux { set_aux(&tx, Some(md.clone())) } else { tx.clone() };
+            let good = pv::refhash::blake2b_256(&md.to_vec());
+            let h: Vec<u8> = match rng.below(6) {
+                0 => good.to_vec(),
+                1 => vec![],
+                2 => good[..31].to_vec(),
+                3 => { let mut v = good.to_vec(); v.push(0); v }
+                4 => rng.bytes(64),
+                _ => rng.bytes(32),
+            };
+            let l = h.len();
+            c.tx = body_set(&t, 7, Some(Node::bytes(&h)));
+            Some(format!("aux={with_aux},aux_hash.len={l}"))
         }
         33 | 34 if !matches!(c.era, Era::Shelley | Era::Allegra | Era::Mary) => {
             // one or two additional collateral inputs with own key-locked UTxO entries whose coins are
